@@ -6,6 +6,7 @@ import (
 	"github.com/sarchlab/akita/v5/mem/memcontrolprotocol"
 
 	"verif/props/ctrlmon"
+	"verif/props/edm"
 	"verif/props/evm"
 	"verif/sim/kit"
 )
@@ -239,16 +240,21 @@ func stepNames(steps []CtrlStep) string {
 func init() {
 	kit.Register(kit.Spec[c18Union]{
 		ID: "C18", Level: "exploration",
-		Rule: "one real agent of twelve kinds minus the data mover (ideal / banked / DRAM controller, reorder buffer, write-back cache, write-around / write-evict / write-through cache; TLB, MMU cache, MMU, GMMU, address translator on their translation stacks) between 1-3 scripted requesters and (for agents with a Bottom port) the adversarial lower memory; a control driver issues 1-8 seeded verbs (all six, with address / process filters, back-to-back or awaiting acks, at seeded instants inside live traffic) and a final enable; " +
+		Rule: "one real agent of all twelve kinds (data mover between two harness memories; ideal / banked / DRAM controller, reorder buffer, write-back cache, write-around / write-evict / write-through cache; TLB, MMU cache, MMU, GMMU, address translator on their translation stacks) between 1-3 scripted requesters and (for agents with a Bottom port) the adversarial lower memory; a control driver issues 1-8 seeded verbs (all six, with address / process filters, back-to-back or awaiting acks, at seeded instants inside live traffic) and a final enable; " +
 			"oracle = protocol monitor on the agent's Control / Top / Bottom ports ordered by a global sequence: one response per request with its command and ID in request order, support matrix and illegal-state refusals, no data response between a pause/drain ack and the next enable/reset ack, drain ack => every accepted request answered and nothing outstanding downstream, reset ack => no later answer to a request delivered before it, everything not reset completes after the final enable; the flat-memory oracle stays on when the script has no reset (and no invalidate of a write-back cache); " +
 			"distinct = hash of (agent, assembly, events, script); non-trivial = >= 2 acknowledgments and traffic reached the agent",
-		Assumptions: []string{"the data mover is not covered by this generator yet", "quiescence is judged from outside: accepted = retrieved from Top, answered = response sent on Top, downstream outstanding = sent on Bottom without a retrieved response"},
-		Real:        []string{"mem/vm/tlb", "mem/vm/mmuCache", "mem/vm/mmu", "mem/vm/gmmu", "mem/vm/addresstranslator", "mem/idealmemcontroller", "mem/simplebankedmemory", "mem/dram", "mem/rob", "mem/cache/writeback", "mem/cache/writethroughcache", "mem/memcontrolprotocol", "noc/directconnection"},
+		Assumptions: []string{"quiescence is judged from outside: accepted = retrieved from Top, answered = response sent on Top, downstream outstanding = sent on Bottom without a retrieved response"},
+		Real:        []string{"mem/vm/tlb", "mem/vm/mmuCache", "mem/vm/mmu", "mem/vm/gmmu", "mem/vm/addresstranslator", "mem/idealmemcontroller", "mem/simplebankedmemory", "mem/dram", "mem/rob", "mem/cache/writeback", "mem/cache/writethroughcache", "mem/datamover", "mem/memcontrolprotocol", "noc/directconnection"},
 		Stubs:       []string{"requesters", "control driver", "adversarial lower memory"},
 		FaultKinds:  []string{"control-verb", "reset-with-traffic", "drain-with-traffic", "lower-response-delayed", "lower-response-reordered", "requester-stall-window"},
 		Quick:       kit.Budget{Runs: 12000, WallS: 100},
 		Thorough:    kit.Budget{Runs: 800000, WallS: 1500, CaseS: 300},
 		Gen: func(r *kit.Rand, t kit.Tier) c18Union {
+			if r.Chance(1, 14) {
+				d := edm.GenC18DM(r, t)
+				return c18Union{DM: &d}
+			}
+
 			if r.Chance(5, 13) { // 5 of the 13 agent kinds are virtual-memory agents
 				v := evm.GenC18VM(r, t)
 				return c18Union{VM: &v}
@@ -259,6 +265,10 @@ func init() {
 			return c18Union{Mem: &m}
 		},
 		Exec: func(c c18Union, env *kit.Env) kit.Outcome {
+			if c.DM != nil {
+				return edm.ExecC18DM(*c.DM, env)
+			}
+
 			if c.VM != nil {
 				return evm.ExecC18VM(*c.VM, env)
 			}
@@ -267,6 +277,15 @@ func init() {
 		},
 		Shrink: func(c c18Union) []c18Union {
 			var out []c18Union
+
+			if c.DM != nil {
+				for _, q := range edm.ShrinkC18DM(*c.DM) {
+					q := q
+					out = append(out, c18Union{DM: &q})
+				}
+
+				return out
+			}
 
 			if c.VM != nil {
 				for _, q := range evm.ShrinkC18VM(*c.VM) {
@@ -291,6 +310,7 @@ func init() {
 type c18Union struct {
 	Mem *C18Case   `json:"mem,omitempty"`
 	VM  *evm.C18VM `json:"vm,omitempty"`
+	DM  *edm.C18DM `json:"dm,omitempty"`
 }
 
 func shrinkC18(c C18Case) []C18Case {
